@@ -53,6 +53,15 @@ impl Out {
     pub fn skip() -> Out {
         Out { ok: true, nt: false, got: 0, want: 0, ops: 0, panicked: false }
     }
+    /// a case outside the checked property's precondition that was nevertheless *executed* (totality pass, C16): its
+    /// result only enters the profile digest; an unwind is reported
+    #[inline]
+    pub fn executed(got: Option<u128>) -> Out {
+        match got {
+            Some(g) => Out { ok: true, nt: false, got: g, want: g, ops: 1, panicked: false },
+            None => Out { ok: false, nt: false, got: PANIC, want: 0, ops: 1, panicked: true },
+        }
+    }
     /// verdict computed by the cell itself
     #[inline]
     pub fn verdict(got: Option<u128>, ok: bool, want: u128, nt: bool) -> Out {
@@ -402,7 +411,7 @@ impl Cfg {
                 "--tier" => { c.tier = nxt(i); i += 1 }
                 "--seed" => { c.seed = nxt(i).parse().unwrap(); i += 1 }
                 "--threads" => { c.threads = nxt(i).parse().unwrap(); i += 1 }
-                "--mode" => { c.mode = if nxt(i) == "total" { Mode::Total } else { Mode::Check }; i += 1 }
+                "--mode" => { c.mode = if nxt(i) == "total" { TOTAL_MODE.store(true, Ordering::Relaxed); Mode::Total } else { Mode::Check }; i += 1 }
                 "--cell" => { c.cell_filter = Some(nxt(i)); i += 1 }
                 "--replay" => { c.replay = Some(nxt(i)); i += 1 }
                 "--dump-fails" => { c.dump_fails = Some(nxt(i)); i += 1 }
@@ -970,6 +979,13 @@ pub fn run_cells(cfg: &Cfg, cells: Vec<CellDef>, extra: Extra, rep: Report) -> i
 /// by galloping + bisection on the reference itself; all members in between are compared with the cached result.
 /// Soundness rests on the monotonicity of the *reference* only (a mathematical property of rounding), never on
 /// the code under test. Returns (reference value, whether the interval has more than one member).
+/// set when the engine runs with `--mode total` (the C16 pass): cells then also execute the cases their own property
+/// does not constrain (e.g. quire sums that leave the range), so that an unwind or a profile difference there is seen
+pub static TOTAL_MODE: AtomicBool = AtomicBool::new(false);
+pub fn total_mode() -> bool {
+    TOTAL_MODE.load(Ordering::Relaxed)
+}
+
 pub mod mono {
     use std::cell::RefCell;
     #[derive(Clone, Copy)]
